@@ -9,7 +9,7 @@ from ..kinds import node_containing
 from ..model import AnalysisError, attr_chain, norm, short, walk_local
 from ..pmodel import LEX_CONSUME, ParserModel
 from ..report import Ctx
-from .. import linear
+from .. import balanced as balanced_model, linear
 from .c10 import linear_form
 from .c14 import check_lifo, _under_empty_stack
 
@@ -211,42 +211,11 @@ def run(ctx: Ctx) -> None:
     ctx.ob("R13.6", "parser:CxxParser._discard_ctor_initializer|returns right after discarding the body", ok, msg="the scanner does not return immediately after skipping the function body", node=dc, mod=mod)
 
     # ---------------------------------------------------------------- R13.4
-    ctx.rule("R13.4", "_consume_balanced_tokens: keeps every token, pushes the closer of every opener, LIFO stack, returns only when empty", minimum=4)
+    ctx.rule("R13.4", "_consume_balanced_tokens interpreted over every short script of bracket tokens: returns right after the balancing closer, keeps every token, a fused ']]' closes two '['; LIFO use of the stack", minimum=4)
     fs, steps = linear.analyse(pm, "_consume_balanced_tokens", {"NEWLINE"})
     ctx.ob("R13.4", "parser:CxxParser._consume_balanced_tokens|every token read is kept", not fs, msg=fs[0].text if fs else "", node=pm.fn("_consume_balanced_tokens"), mod=mod, detail={"path_states": steps})
-    cb = pm.fn("_consume_balanced_tokens")
-    pushes = [c for c in walk_local(cb) if isinstance(c, ast.Call) and isinstance(c.func, ast.Attribute) and c.func.attr == "append" and "stack" in norm(c.func.value)]
-    push_ok = False
-    for c in pushes:
-        a = c.args[0] if c.args else None
-        if isinstance(a, ast.Name):
-            defs = [st for st in walk_local(cb) if isinstance(st, ast.Assign) and any(isinstance(t, ast.Name) and t.id == a.id for t in st.targets)]
-            if any("token_map" in norm(d.value) and ".type" in norm(d.value) for d in defs):
-                push_ok = True
-        elif a is not None and "token_map" in norm(a):
-            push_ok = True
-    init_ok = any("token_map[" in norm(x) and "for" in norm(x) for x in walk_local(cb) if isinstance(x, (ast.GeneratorExp, ast.ListComp)))
-    # the push of a nested opener's closer depends on nothing but the map lookup having found one
-    cfgp = pm.cfg("_consume_balanced_tokens")
-    for c in pushes:
-        n = node_containing(cfgp, c)
-        if n is None:
-            continue
-        a = c.args[0] if c.args else None
-        if isinstance(a, ast.Name) and not any("expected" == a.id for _ in [0]):
-            for d, lab in cfgp.control_deps(n):
-                if d.loop is not None:
-                    continue
-                txt = norm(d.cond)
-                if a.id in txt and txt != a.id and txt != f"{a.id} is not None" and "_end_balanced_tokens" not in txt:
-                    push_ok = False
-    ctx.ob("R13.4", "parser:CxxParser._consume_balanced_tokens|closer of every opener is pushed", push_ok and init_ok,
-           msg="an opener (initial or nested) no longer pushes token_map[its type] on the expectation stack", node=cb, mod=mod)
+    balanced_model.obligations(ctx, "R13.4", pm, ("return", "fused"))
     check_lifo(ctx, "R13.4", pm)
-    cfgb = pm.cfg("_consume_balanced_tokens")
-    rets = [s for s in walk_local(cb) if isinstance(s, ast.Return)]
-    ctx.ob("R13.4", "parser:CxxParser._consume_balanced_tokens|returns only with an empty stack", bool(rets) and all(_under_empty_stack(cfgb, r) for r in rets),
-           msg="the balanced consumer can return while brackets are still open", node=cb, mod=mod)
 
 
 def _site_idx(pm: ParserModel, fname: str, call: ast.Call) -> int:
